@@ -16,6 +16,45 @@ import (
 func init() {
 	rt.Register("H_C06_step", H_C06_step)
 	rt.Register("H_C06_pair", H_C06_pair)
+	rt.Register("H_C06_constructs", H_C06_constructs)
+}
+
+// call-site and literal machinery that handles existing values: unpacking, expansion,
+// merging, interpolation, chains, digest
+var c06Constructs = []string{
+	`f2(**o, **o2)`, `f2(**o2, **o)`, `f2(y: 1, **o, **o2)`, `f2(y: 1, **o)`, `f2(**o, **o)`,
+	`{**o, **o2}`, `{**o2, **o}`, `{z: 1, **o}`, `%{**m, **m2}`, `%{**m2, **m}`, `%{**o, **m}`,
+	`[*a, *aa]`, `[*aa, *a]`, `f3(*a)`, `f3(*a, *a)`, `f3(*aa, *a)`,
+	`o.bear(o2)`, `o2.bro(o)`, `ch.bear(o)`, `o.patch(y: 1)`,
+	`a + aa`, `aa + a`, `a + a`, `"#{s}#{a}#{o}"`,
+	`a@{|x| x}`, `o@{|kv| kv}`, `m@{|kv| kv}`, `a$(aa){|acc, x| acc + [x]}`, `a$(a){|acc, x| acc + [x]}`,
+	`o.digest([["k", 1]])`, `a.digest([9])`, `m.digest([[1, 2]])`,
+	`o2.{|x| \_}`, `{|| \_}(**o)`, `{|| \0}(*a)`, `a.{|x| [*x, *x]}`,
+	`o == o2`, `m == m2`, `a == aa`, `o.keys + o2.keys`, `r.A + a`, `s + s`, `s * 2`, `a * 2`,
+}
+
+// H_C06_constructs: two constructs in sequence (solver choices; the first is sharded by
+// the job) over the pool; every live value is fingerprinted before and compared after each.
+func H_C06_constructs() {
+	h := NewH()
+	p := c06World(h, rt.Param(2) == 1)
+	p.add("o2", h.Eval(`{y: x2, p: 5}`))
+	p.add("m2", h.Eval(`%{x1: 9, 'k: [x3]}`))
+	h.Eval(`f2 := {|p: 0, y: 0| [p, y]}; f3 := {|u, v, w| [u, v, w]}`)
+	lo := len(c06Constructs) * rt.Param(0) / rt.Param(1)
+	hi := len(c06Constructs) * (rt.Param(0) + 1) / rt.Param(1)
+	c1 := c06Constructs[lo+rt.Choice(hi-lo)]
+	r1 := h.EvalNoPanic(c1)
+	p.unchanged("no call, literal, unpacking or chain may change an existing value")
+	if _, isErr := r1.(*object.PanErr); !isErr {
+		p.add("r1", r1)
+	} else {
+		h.Set("r1", object.BuiltInNil)
+	}
+	c2 := c06Constructs[rt.Choice(len(c06Constructs))]
+	rt.Note(c1 + " ; " + c2)
+	h.EvalNoPanic(c2)
+	p.unchanged("no call, literal, unpacking or chain may change an existing value")
 }
 
 // snap is a deep structural fingerprint of a value (element / pair / bound identities by
